@@ -268,6 +268,22 @@ mod imp {
                 out.push((t.clone(), s));
             }
         }
+        // Custom path lists that are longer than the set of claims they hide: a dangling path, an always-visible
+        // root claim, the first path twice (one queued salt per *disclosure*, not per path)
+        for t in trees(2, 2) {
+            for s in pipeline::all_strategies(&t) {
+                if let Strat::Custom(p) = &s {
+                    for extra in [vec!["$.zz".to_string()], vec!["$.iss".to_string(), "$.exp".to_string()], p.first().cloned().into_iter().collect::<Vec<_>>(), vec!["$.zz".to_string(), "$.zz[0]".to_string(), "$.a.zz".to_string()]] {
+                        if extra.is_empty() {
+                            continue;
+                        }
+                        let mut q = p.clone();
+                        q.extend(extra);
+                        out.push((t.clone(), Strat::Custom(q)));
+                    }
+                }
+            }
+        }
         out
     }
 
